@@ -81,7 +81,7 @@ PROPS = {
     },
     'C04': {
         'level': 'proof',
-        'verus': [{'group': 'c04_zset_arith'}, {'group': 'shard_zsets', 'units': ['zadd', 'zincrby', 'zrem']}, _cg('srv_zsets')],
+        'verus': [{'group': 'c04_zset_arith'}, {'group': 'shard_zsets', 'units': ['zadd', 'zincrby', 'zrem']}, _cg('srv_zsets'), _cg('exec_zsets')],
         'kani': SKIPLIST_KANI,
         'explanation': 'rank-range arithmetic of ZRANGE/ZREVRANGE/ZRANK against spec_zrange with the skip list behind an assumed contract',
     },
@@ -95,7 +95,7 @@ PROPS = {
         # C06 = the safety obligations (overflow, bounds, slice ranges, unwrap, preconditions of callees such as the
         # allocation budget) of EVERY unit under contract, for all argument values
         'verus': [{'group': g, 'kinds': ['safety', 'requires-at-call', 'decreases', 'invariant']} for g in
-                  ['shard_core', 'shard_strings', 'shard_lists', 'shard_sweeper', 'shard_sets', 'shard_hashes', 'shard_zsets', 'cmd_strings', 'cmd_lists', 'cmd_sets', 'cmd_hashes', 'c03_lists_arith', 'c04_zset_arith', 'c19_scan', 'c20_parser', 'c20_serializer', 'c10_bgsave', 'c11_aof', 'c09_rdb', 'c13_blocking', 'c07_transactions', 'shard_flush', 'c14_pubsub', 'srv_strings', 'srv_zsets', 'cmd_scan', 'cmd_setops', 'exec_strings', 'exec_lists', 'exec_sets', 'exec_route', 'exec_keys', 'c16_pel', 'c12_parse', 'srv_reply']]
+                  ['shard_core', 'shard_strings', 'shard_lists', 'shard_sweeper', 'shard_sets', 'shard_hashes', 'shard_zsets', 'cmd_strings', 'cmd_lists', 'cmd_sets', 'cmd_hashes', 'c03_lists_arith', 'c04_zset_arith', 'c19_scan', 'c20_parser', 'c20_serializer', 'c10_bgsave', 'c11_aof', 'c09_rdb', 'c13_blocking', 'c07_transactions', 'shard_flush', 'c14_pubsub', 'srv_strings', 'srv_zsets', 'cmd_scan', 'cmd_setops', 'exec_strings', 'exec_lists', 'exec_sets', 'exec_route', 'exec_keys', 'exec_zsets', 'c16_pel', 'c12_parse', 'srv_reply']]
                  # server-level units: their index/slice/overflow/unwrap/termination obligations only (their call preconditions are model permissions, not crashes)
                  + [{'group': g, 'kinds': ['safety', 'decreases']} for g in ['srv_exec', 'srv_frame', 'srv_conn', 'srv_auth', 'srv_push', 'srv_notify', 'srv_aof', 'srv_select', 'srv_wake', 'srv_pubsub']],
         'kani': STREAM_KANI[:1] + RDB_TOTAL_KANI,
@@ -139,7 +139,7 @@ PROPS = {
     },
     'C12': {
         'level': 'proof',
-        'verus': [_cg('c12_parse', True), _cg('exec_route'), _cg('exec_strings'), _cg('exec_lists'), _cg('exec_sets'), _cg('exec_keys'), _cg('srv_strings'), _cg('cmd_strings'), _cg('cmd_lists'), _cg('cmd_sets'), _cg('cmd_hashes'),
+        'verus': [_cg('c12_parse', True), _cg('exec_route'), _cg('exec_strings'), _cg('exec_lists'), _cg('exec_sets'), _cg('exec_keys'), _cg('exec_zsets'), {'group': 'srv_zsets', 'units': ['handle_zadd'], 'exclude_units': CMD_SHARED}, {'group': 'shard_zsets', 'units': ['zadd']}, _cg('srv_strings'), _cg('cmd_strings'), _cg('cmd_lists'), _cg('cmd_sets'), _cg('cmd_hashes'),
                   # the engine functions both paths call (the EngineModel contracts the arms and handlers assume are what these units prove)
                   {'group': 'shard_core'}, _sg('shard_strings'), _sg('shard_lists'), _sg('shard_sets'), _sg('shard_hashes')],
         'tables': [{'name': 'script_parse_table', 'kind': 'script_parse'}],
@@ -173,7 +173,7 @@ PROPS = {
     },
     'C18': {
         'level': 'proof',
-        'verus': [{'group': 'srv_select'}, {'group': 'srv_frame'}, {'group': 'srv_exec'}, {'group': 'c13_blocking', 'units': ['notify_served_arm']}, _cg('cmd_strings', True), _cg('cmd_lists'), _cg('cmd_sets'), _cg('cmd_hashes'), {'group': 'shard_flush', 'exclude_units': SHARD_VALUE_UNITS}, _cg('exec_route'), _cg('exec_strings'), _cg('exec_lists'), _cg('exec_sets'), _cg('exec_keys')],
+        'verus': [{'group': 'srv_select'}, {'group': 'srv_frame'}, {'group': 'srv_exec'}, {'group': 'c13_blocking', 'units': ['notify_served_arm']}, _cg('cmd_strings', True), _cg('cmd_lists'), _cg('cmd_sets'), _cg('cmd_hashes'), {'group': 'shard_flush', 'exclude_units': SHARD_VALUE_UNITS}, _cg('exec_route'), _cg('exec_strings'), _cg('exec_lists'), _cg('exec_sets'), _cg('exec_keys'), _cg('exec_zsets')],
         'tables': [{'name': 'dispatch_table', 'kind': 'dispatch'}],
         'explanation': 'the db index along the direct and the EXEC path: SELECT (refusal / per-connection effect), process_frame dispatches with the issuing connection\'s selection, EXEC runs the queue on the connection\'s database, get_shard maps db to a shard of that database, the command handlers under contract read and write only (db, .) entries of the reference dataset, flush of a shard touches that shard only',
     },
